@@ -208,6 +208,63 @@ class Impl:
             return "- ; " + self.stats()
         return "bad-op"
 
+    # --- search-side only: re-entrant agents (outside the model: its `run` is atomic) -----------------------------
+    def reenter(self, t):
+        """reenter <gate> <cacheOn> <e|a> <depth> <pA> <zA> <yA> <pB> <zB> <yB>
+        A fresh loop; while answering request A the executor (e) / assessor (a) stub issues a nested run(B) on the
+        SAME loop (depth 2: while answering B it issues run(C), C = A's verdicts on a third prompt; hard cap 3).
+        The observation is the constant "ok" on both sides; the oracle judges every reply by the verdicts the agents
+        returned for THAT request."""
+        L = self.L
+        gate, cache, where, depth = t[1] if t[1] in GATES else "and", t[2] == "1", t[3], max(1, min(3, int(t[4])))
+        pa, pb = t[5], t[8] if t[8] != t[5] else str(int(t[5]) + 1)
+        chain = [(pa, t[6], t[7]), (pb, t[9], t[10]), (str(int(pb) + 1000), t[6], t[7]), (str(int(pb) + 2000), t[9], t[10])]
+        chain = chain[:depth + 1]
+        text = {prompt_text(p): i for i, (p, _, _) in enumerate(chain)}
+        store = self.ATP_Store(budget=BUDGET, silent=True)
+        with contextlib.redirect_stdout(io.StringIO()):
+            loop = L.CoherentFeedForwardLoop(budget=store, gate_logic=L.GateLogic(gate), enable_cache=cache, silent=True)
+        reqs = [{"p": p, "z": None, "y": None, "reply": None} for (p, _, _) in chain]
+        T = self.T
+
+        def nested(i):
+            if i + 1 < len(chain):
+                reqs[i + 1]["reply"] = call(i + 1)
+
+        def call(i):
+            try:
+                with contextlib.redirect_stdout(io.StringIO()):
+                    r = loop.run(prompt_text(chain[i][0]))
+            except Exception as e:  # noqa
+                return f"raise:{type(e).__name__}"
+            tok = r.approval_token
+            want = hashlib.sha256(prompt_text(chain[i][0]).encode()).hexdigest()[:16]
+            return {"action": str(r.action), "success": r.success is True, "blocked": r.blocked is True,
+                    "cached": r.cached is True, "token": tok is not None,
+                    "hash_ok": tok is not None and tok.request_hash == want,
+                    "issuer_ok": tok is not None and tok.issuer == ASSESS_NAME}
+
+        class Agent:
+            def __init__(self, name, role):
+                self.name, self.role = name, role
+
+            def express(self, signal):
+                i = text.get(signal.content)
+                if i is None:
+                    return T.ActionProtein("UNKNOWN", "?", 0.0)
+                v = chain[i][1] if self.role == "z" else chain[i][2]
+                if (where == "e") == (self.role == "z") and reqs[i].get("entered") is None:
+                    reqs[i]["entered"] = True
+                    nested(i)
+                reqs[i][self.role] = "exc" if v == "exc" else verdict_text(v)
+                if v == "exc":
+                    raise RuntimeError("stub agent failure")
+                return T.ActionProtein(verdict_text(v), "stub payload", 0.75, source_agent=None)
+        loop.executor = Agent(EXEC_NAME, "z")
+        loop.assessor = Agent(ASSESS_NAME, "y")
+        reqs[0]["reply"] = call(0)
+        return "ok", {"kind": "reenter", "gate": gate, "reqs": reqs}
+
     def run_case(self, case):
         """observations + per line the verdicts the agents ACTUALLY returned: (z, y), each a verdict string, "exc",
         or None when that agent was not consulted"""
@@ -216,6 +273,11 @@ class Impl:
         for l in case["lines"]:
             if self.loop is not None:
                 self.E.last = self.A.last = None
+            if l.startswith("reenter ") and len(l.split()) == 11:
+                o, info = self.reenter(l.split())
+                obs.append(o)
+                actual.append(info)
+                continue
             obs.append(self.line(l))
             actual.append((self.E.last, self.A.last) if l.startswith("run ") and self.loop is not None else (None, None))
         return obs, actual
